@@ -15,9 +15,9 @@ STUBS = ['scipy.integrate.simpson: linear in y; weights taken from the real scip
 GR = {'u3': [500, 510, 520], 'u5': [500, 510, 520, 530, 540], 'n3': [500, 504, 520], 'n4': [500, 503, 511, 530], 'u2': [500, 520], 'u4': [500, 510, 520, 530]}
 
 
-def _spec(W, R, name, grid, tag='v', **kw):
+def _spec(W, R, name, grid, tag='v', waveunit='nm', **kw):
     vals = [W.real(f'{tag}{k}', **kw) for k in range(len(grid))]
-    return R.Spectrum(W.array([W.const(Fraction(g)) for g in grid]), W.array(list(vals))), vals
+    return R.Spectrum(W.array([W.const(Fraction(g)) for g in grid]), W.array(list(vals)), waveunit=waveunit), vals
 
 
 def _trap(grid, vals, idx):
@@ -30,6 +30,8 @@ def _trap(grid, vals, idx):
 # ------------------------------------------------------------------ integrate
 def cfg_int(tier, seed):
     out = [{'grid': g, 'method': m} for g in GR for m in ('trapz', 'simps')]
+    # the same grids held in metres (sample spacings of 1e-9..1e-8: nothing may be compared with an absolute tolerance)
+    out += [{'grid': g, 'method': m, 'unit': 'm'} for g in ('n3', 'n4', 'u5', 'u3') for m in ('trapz', 'simps')]
     return out, len(out), True
 
 
@@ -37,16 +39,26 @@ def run_int(W, cfg):
     R = W.mod('radiometry')
     grid = GR[cfg['grid']]
     n = len(grid)
-    s1, v1 = _spec(W, R, 's1', grid, 'v')
-    s2, v2 = _spec(W, R, 's2', grid, 'u')
+    unit = cfg.get('unit', 'nm')
+    K = 1
+    if unit == 'm':
+        grid = [Fraction(g, 10 ** 9) for g in grid]
+        K = 10 ** 9                      # results are compared after scaling back to order one
+    s1, v1 = _spec(W, R, 's1', grid, 'v', waveunit=unit)
+    s2, v2 = _spec(W, R, 's2', grid, 'u', waveunit=unit)
     a, b = W.real('a'), W.real('b')
     m = cfg['method']
-    comb = R.Spectrum(s1.wave, W.array([a * x + b * y for x, y in zip(v1, v2)]))
-    W.ob('linear in the values', comb.integrate(method=m), a * s1.integrate(method=m) + b * s2.integrate(method=m))
+    comb = R.Spectrum(s1.wave, W.array([a * x + b * y for x, y in zip(v1, v2)]), waveunit=unit)
+    W.ob('linear in the values', K * comb.integrate(method=m), K * (a * s1.integrate(method=m) + b * s2.integrate(method=m)))
+    if unit == 'm' and m == 'trapz':
+        nm1, _ = _spec(W, R, 's1', GR[cfg['grid']], 'v')
+        W.ob('integral in metres = 1e-9 x integral of the same samples in nanometres', K * s1.integrate(method=m), nm1.integrate(method=m))
     if m == 'trapz':
-        W.ob('trapezoid rule (exact for piecewise-linear data)', s1.integrate(method=m), _trap(grid, v1, list(range(n))))
+        W.ob('trapezoid rule (exact for piecewise-linear data)', K * s1.integrate(method=m), K * _trap(grid, v1, list(range(n))))
         for k in range(1, n - 1):
-            W.ob(f'additive at sample {k}', s1.integrate(grid[0], grid[k], method=m) + s1.integrate(grid[k], grid[-1], method=m), s1.integrate(method=m))
+            W.ob(f'additive at sample {k}', K * (s1.integrate(W.const(grid[0]), W.const(grid[k]), method=m) + s1.integrate(W.const(grid[k]), W.const(grid[-1]), method=m)), K * s1.integrate(method=m))
+        if unit == 'm':
+            return
         # symbolic limits: exactly the samples in the closed range are used
         lo, hi = W.real('lo'), W.real('hi')
         W.assume(lo <= hi)
@@ -67,7 +79,7 @@ def run_int(W, cfg):
 def cfg_bin(tier, seed):
     out = []
     for grid in ('u5', 'n4', 'u4'):
-        for centres in ([505, 515], [505, 515, 525], [503, 509, 527]):
+        for centres in ([505, 515], [505, 515, 525], [503, 509, 527], [505, 535], [501, 519, 537]):
             for method in ('trapz', 'simps'):
                 uniform = len({centres[k + 1] - centres[k] for k in range(len(centres) - 1)}) == 1
                 if method == 'simps' and (not uniform or grid == 'n4'):
